@@ -1,11 +1,13 @@
 /-
   Representation functions model → generated for the shared types of `Generated/Src/Common.lean`
-  (`renet::packet::{Slice, Packet}`); used by the groups Packet and SendUnrel.
+  (`renet::packet::{Slice, Packet}`, `renet::error::ChannelError`); used by the groups Packet, Slice and the channel groups.
 -/
 import RenetVerif.Generated.Src.Common
 import RenetVerif.Lemmas.SrcEquiv.Prims
 namespace RenetVerif.SrcEquiv
 open RenetVerif RenetVerif.RustSem
+
+abbrev SPacket := Src.renet.packet.Packet
 
 def reprSlice (s : Slice) : Src.renet.packet.Slice := ⟨s.messageId, s.sliceIndex, s.numSlices, toNats s.payload⟩
 def reprRange (r : AckRange) : RustSem.Range := ⟨r.1, r.2⟩
@@ -15,5 +17,10 @@ def reprPacket : RenetVerif.Packet → Src.renet.packet.Packet
   | .reliableSlice s c sl => .ReliableSlice s c (reprSlice sl)
   | .unreliableSlice s c sl => .UnreliableSlice s c (reprSlice sl)
   | .ack s r => .Ack s (r.map reprRange)
+
+abbrev SChannelError := Src.renet.error.ChannelError
+def reprCE : ChanErr → SChannelError
+  | .maxMemory => .ReliableChannelMaxMemoryReached
+  | .invalidSlice => .InvalidSliceMessage
 
 end RenetVerif.SrcEquiv
